@@ -20,7 +20,7 @@ func init() {
 		Explanation: "Structural necessary conditions of C06: (checked-before-use) in DecryptDataRowRecord the partition's IsValidIntermediateKeyID(record's parent key id) guards every key lookup and its false edge " +
 			"returns an error; (exact-match) for EVERY implementation of partition.IsValidIntermediateKeyID each acceptance condition is a string equality between the argument and the partition's own " +
 			"IntermediateKeyID() — prefix/substring tests accept other partitions' ids; (id-format-injective) every IntermediateKeyID is Sprintf of a constant all-%s format with the partition id as the " +
-			"single first operand; (empty-refused) GetSession's id == \"\" test dominates session creation and cache lookup and returns an error. Cache states and id collisions across services are not decided.",
+			"single first operand; (empty-refused) GetSession's id == \"\" test dominates session creation and cache lookup and returns an error; true is returned only on the equal side of the id comparison (a flipped ==/!= is reported even where the prefix finding G10 is known); the partition constructors and their calls keep (id, service, product[, suffix]) in order. Cache states and id collisions across services are not decided.",
 		NotDecided:  []string{"all cache states", "ids colliding across different service/product (outside the property)", "behaviour of the region-suffix backwards-compatibility acceptance (recorded as known finding G10)"},
 		Assumptions: []string{"string == is exact comparison", "fmt.Sprintf with %s of a string inserts it verbatim"},
 		Tech:        "static analysis: guarded-by-condition on SSA, acceptance-condition enumeration for all implementations of the partition interface, constant-folded format strings",
@@ -529,15 +529,7 @@ func ruleC06EmptyRefused(c *Ctx) {
 // the partition object unmodified at every hop (a normalised/truncated id would hand out another partition's session).
 func ruleC06IDFlowsUnmodified(c *Ctx) {
 	u := c.U1
-	c.rule("C06.id-flows-unmodified", "the partition id flows unchanged GetSession → sessionCache.Get / newSession → getOrAdd → cache.Get/Set key and loader → newSession → newPartition → partition.id", 10)
-	type hop struct {
-		fn       *ssa.Function
-		name     string
-		param    int
-		match    func(ssa.Instruction) (arg ssa.Value, ok bool)
-		calleeTx string
-		min      int
-	}
+	c.rule("C06.id-flows-unmodified", "at every call site in package appencryption of an id sink (sessionCache.Get, newSession, the session cache's key in Get/Set, the session loader, newPartition/newSuffixedPartition) the id argument is a plain string parameter of the enclosing function (or one captured from an enclosing function) — never a computed value; the constructors store it in partition.id", 10)
 	invokeArg := func(iface, meth string, idx int) func(ssa.Instruction) (ssa.Value, bool) {
 		return func(i ssa.Instruction) (ssa.Value, bool) {
 			cc := callOf(i)
@@ -570,49 +562,83 @@ func ruleC06IDFlowsUnmodified(c *Ctx) {
 			return nil, false
 		}
 	}
-	var loaderClosure, factoryClosure *ssa.Function
-	if f := u.Func(pkgApp, "newSessionCacheWithCache"); f != nil && len(f.AnonFuncs) > 0 {
-		loaderClosure = f.AnonFuncs[0]
+	_ = fieldCallArg
+	// Sink-based formulation (robust against inlining / extraction of the intermediate functions): at EVERY call site
+	// in package appencryption of one of the id sinks below, the id argument is a plain string parameter of the
+	// enclosing function (or a parameter of an enclosing function captured by a closure) — never a computed value.
+	type sink struct {
+		name  string
+		match func(ssa.Instruction) (ssa.Value, bool)
+		min   int
+		only  func(*ssa.Function) bool
 	}
-	if f := u.Func(pkgApp, "NewSessionFactory"); f != nil {
-		for _, a := range f.AnonFuncs {
-			if len(a.Params) == 1 && a.Params[0].Type().String() == "string" {
-				factoryClosure = a
+	inCacheWrapper := func(f *ssa.Function) bool {
+		r := rootFunc(f)
+		return r.Signature.Recv() != nil && typeIsNamed(r.Signature.Recv().Type(), pkgApp, "cacheWrapper")
+	}
+	sinks := []sink{
+		{"sessionCache.Get(id)", invokeArg("sessionCache", "Get", 0), 1, nil},
+		{"newSession(f, id)", staticArg("newSession", 1), 2, nil},
+		{"session cache key Get(id)", invokeArg("Interface", "Get", 0), 1, inCacheWrapper},
+		{"session cache key Set(id, …)", invokeArg("Interface", "Set", 0), 1, inCacheWrapper},
+		{"loader(id)", func(i ssa.Instruction) (ssa.Value, bool) {
+			cc := callOf(i)
+			if cc == nil || cc.IsInvoke() || cc.StaticCallee() != nil || len(cc.Args) != 1 || cc.Args[0].Type().String() != "string" {
+				return nil, false
+			}
+			if !strings.HasSuffix(cc.Value.Type().String(), "sessionLoaderFunc") && !strings.Contains(cc.Value.Type().String(), "func(id string) (*") {
+				return nil, false
+			}
+			return cc.Args[0], true
+		}, 2, nil},
+		{"(*SessionFactory).newPartition(id)", func(i ssa.Instruction) (ssa.Value, bool) {
+			if g := staticCallee(i); g != nil && g.Name() == "newPartition" && g.Signature.Recv() != nil && len(callOf(i).Args) > 1 {
+				return callOf(i).Args[1], true
+			}
+			return nil, false
+		}, 1, nil},
+		{"newPartition(id, …)", func(i ssa.Instruction) (ssa.Value, bool) {
+			if g := staticCallee(i); g != nil && (g.Name() == "newPartition" || g.Name() == "newSuffixedPartition") && g.Signature.Recv() == nil && len(callOf(i).Args) > 0 {
+				if rootFunc(i.Parent()).Name() == "newSuffixedPartition" {
+					return nil, false
+				}
+				return callOf(i).Args[0], true
+			}
+			return nil, false
+		}, 2, nil},
+	}
+	isRawIDParam := func(v ssa.Value, f *ssa.Function) bool {
+		for fn := f; fn != nil; fn = fn.Parent() {
+			for k, p := range fn.Params {
+				if p.Type().String() == "string" && isParamOrCaptured(v, fn, k) {
+					return true
+				}
 			}
 		}
+		return false
 	}
-	hops := []hop{
-		{u.Method(pkgApp, "SessionFactory", "GetSession"), "GetSession→sessionCache.Get", 1, invokeArg("sessionCache", "Get", 0), "", 1},
-		{u.Method(pkgApp, "SessionFactory", "GetSession"), "GetSession→newSession", 1, staticArg("newSession", 1), "", 1},
-		{u.Method(pkgApp, "cacheWrapper", "Get"), "cacheWrapper.Get→getOrAdd", 1, staticArg("getOrAdd", 1), "", 1},
-		{u.Method(pkgApp, "cacheWrapper", "getOrAdd"), "getOrAdd→cache.Get", 1, invokeArg("Interface", "Get", 0), "", 1},
-		{u.Method(pkgApp, "cacheWrapper", "getOrAdd"), "getOrAdd→cache.Set", 1, invokeArg("Interface", "Set", 0), "", 1},
-		{u.Method(pkgApp, "cacheWrapper", "getOrAdd"), "getOrAdd→loader", 1, fieldCallArg("loader", 0), "", 1},
-		{loaderClosure, "session loader→loader", 0, fieldCallArg("loader", 0), "", 1},
-		{factoryClosure, "factory loader→newSession", 0, staticArg("newSession", 1), "", 1},
-		{u.Func(pkgApp, "newSession"), "newSession→newPartition", 1, staticArg("newPartition", 1), "", 1},
-		{u.Method(pkgApp, "SessionFactory", "newPartition"), "newPartition→newSuffixedPartition", 1, staticArg("newSuffixedPartition", 0), "", 1},
-		{u.Method(pkgApp, "SessionFactory", "newPartition"), "newPartition→newPartition", 1, staticArg("newPartition", 0), "", 1},
-	}
-	for _, h := range hops {
-		if h.fn == nil {
-			c.unresolved(h.name, "function")
-			continue
-		}
-		c.FuncsAnalysed[shortName(h.fn)] = true
+	for _, sk := range sinks {
 		n := 0
-		allInstrs(h.fn, func(i ssa.Instruction) {
-			arg, ok := h.match(i)
-			if !ok {
-				return
+		for _, f := range u.RepoFuncs {
+			if f.Pkg == nil || f.Pkg.Pkg.Path() != pkgApp || f.Blocks == nil {
+				continue
 			}
-			n++
-			c.CallSites++
-			same := isParamOrCaptured(arg, h.fn, h.param) || (h.fn.Parent() != nil && resolve(arg) == ssa.Value(h.fn.Params[h.param]))
-			c.check(same, h.name, u.ipos(i), "passes the id parameter itself", "the partition id is transformed on its way ("+accessPath(arg)+" instead of the id parameter): two different partition ids can end up sharing a session / key id")
-		})
-		if n < h.min {
-			c.bad(h.name, u.pos(h.fn.Pos()), "hop not found (anchors moved?)")
+			if sk.only != nil && !sk.only(f) {
+				continue
+			}
+			allInstrs(f, func(i ssa.Instruction) {
+				arg, ok := sk.match(i)
+				if !ok {
+					return
+				}
+				n++
+				c.CallSites++
+				c.FuncsAnalysed[shortName(f)] = true
+				c.check(isRawIDParam(arg, f), trimPkgDirs(shortName(f))+"→"+sk.name, u.ipos(i), "passes its id parameter itself", "the partition id is transformed on its way ("+accessPath(arg)+" instead of the function's id parameter): two different partition ids can end up sharing a session / key id")
+			})
+		}
+		if n < sk.min {
+			c.bad(sk.name, "", fmt.Sprintf("expected at least %d call sites of this id sink in package appencryption, found %d", sk.min, n))
 		}
 	}
 	// constructors store the id parameter into the partition's id field
